@@ -17,6 +17,7 @@
      construct_date c y (Ordinal o) = at_ordinal_date c y o ; construct_date c y (Date m d) = at_ymd c y m d,
                             with DateError e turned into PDE_InvalidDate e   (Hand/Text.v) *)
 From JV Require Import Sem Gen Hand.Names Hand.Text Proofs.TextProofs Proofs.TextErrors.
+Require JV.Spec JV.SpecX JV.Proofs.TextCore.
 Open Scope Z_scope.
 
 (* (a) what `{}` and `{:#}` print *)
@@ -92,3 +93,18 @@ Theorem C13_error_classification : forall c s e,
   syntactic e -> (parse_date c s = Ret (Err e) <-> Rejects s e).
 Proof. exact parse_date_rejects. Qed.
 Print Assumptions C13_error_classification.
+
+(* ---- the same with the hypotheses about the constructors discharged by the core development, for EVERY calendar a
+   user can hold (Proofs/TextCore.v): every date prints and parses back in both forms; parsing never panics on any
+   string; it gives a semantic answer (a date or an invalid-date error) exactly on the grammar *)
+Theorem C13_roundtrip_all : forall c j, JV.Spec.ValidCal c -> in_i32 j ->
+  exists t1 t2, show_date (JV.SpecX.date_of c j) = Ret t1 /\ show_date_alt (JV.SpecX.date_of c j) = Ret t2 /\
+    parse_date (JV.SpecX.cal_of c) t1 = Ret (Ok (JV.SpecX.date_of c j)) /\ parse_date (JV.SpecX.cal_of c) t2 = Ret (Ok (JV.SpecX.date_of c j)).
+Proof. exact JV.Proofs.TextCore.text_roundtrip_all. Qed.
+Print Assumptions C13_roundtrip_all.
+Theorem C13_total_all : forall c s, JV.Spec.ValidCal c -> parse_date (JV.SpecX.cal_of c) s <> Panic.
+Proof. exact JV.Proofs.TextCore.parse_total_all. Qed.
+Print Assumptions C13_total_all.
+Theorem C13_grammar_all : forall c s, JV.Spec.ValidCal c -> (in_grammar s <-> semantic_answer (parse_date (JV.SpecX.cal_of c) s)).
+Proof. exact JV.Proofs.TextCore.grammar_all. Qed.
+Print Assumptions C13_grammar_all.
